@@ -42,6 +42,7 @@ MANIFEST = {
             'are client objects (their keys are not names); runs of '
             'different false values (0, None, empty string) are '
             'boundaries for first-x / last-x.',
+    'more': 'Also: element objects that are false; sequences of 26..3999 elements (roman numerals, letters, flags as functions of the position); suppliers that fail after k elements / when asked for their length, under an enclosing try.',
     'note': 'Trusted: the positional reference table in this driver (own '
             'roman-numeral routine).  first-x/last-x are asserted for '
             'unbatched runs only; sequence-key for 2-tuples only.',
